@@ -89,6 +89,17 @@ def contains(t, sub):
     return False
 
 
+def replace(t, old, new):
+    """t with every occurrence of the sub-term `old` replaced by `new`"""
+    if t == old:
+        return new
+    if isinstance(t, tuple):
+        if t and isinstance(t[0], str) and t[0] == 'const':
+            return t
+        return tuple(replace(x, old, new) if isinstance(x, tuple) else x for x in t)
+    return t
+
+
 def dotted(t):
     """'np.searchsorted' for ('attr', ('name','np'), 'searchsorted'); None otherwise."""
     parts = []
